@@ -101,7 +101,11 @@ def _gen_op(rng):
     if r < 0.36:
         return {"op": "shuffle_explicit", "src": rng.randrange(8),
                 "seed": rng.randrange(2 ** 30),
-                "as_tuple": rng.random() < 0.3}
+                "as_tuple": rng.random() < 0.3,
+                # each component explicit, kept ('fixed') or random
+                "modes": [rng.choice(["explicit", "explicit", "fixed",
+                                      "shuffle"]) for _ in range(3)]
+                if rng.random() < 0.6 else ["fixed"] * 3}
     if r < 0.50:
         return {"op": "family", "gtype": rng.choice(["simple", "simple",
                                                      "dag", "bipartite"]),
@@ -382,7 +386,16 @@ def execute(case, ctx):
             ib = pool.add("list", perm, "explicit variable permutation")
             ic = pool.add("list", cperm, "explicit clause permutation")
             what = "Shuffle-explicit"
-            r = call(cnfgen.Shuffle, F, flips, perm, cperm)
+            modes = op.get("modes") or ["explicit"] * 3
+            args = [a if m == "explicit" else m
+                    for a, m in zip((flips, perm, cperm), modes)]
+            if modes == ["fixed"] * 3:
+                ctx.probe("Shuffle with nothing to shuffle")
+            with installed(SimRandom(op["seed"])):
+                r = call(cnfgen.Shuffle, F, *args)
+            if r[0] == "ok" and r[1] is F:
+                raise Violation("C19/result-is-the-input/shuffle",
+                                "step %d %r" % (si, op))
             if r[0] == "exc":
                 raise Violation("C19/exception/shuffle/%s" %
                                 exc_signature(r[1], REPO),
